@@ -456,7 +456,7 @@ func Run(c *run.Ctx) {
 	}
 	known := c.KnownActive(fpRecreate)
 	race := c.Flavour == "race"
-	nReader, nBatch, nCLI := c.N(216, 2400), c.N(16, 128), c.N(8, 48)
+	nReader, nBatch, nCLI := c.N(400, 5000), c.N(16, 200), c.N(8, 64)
 	if race {
 		nReader, nBatch, nCLI = 320, 24, 0
 	}
@@ -494,7 +494,11 @@ func Run(c *run.Ctx) {
 		if !c.Mine(i) {
 			continue
 		}
-		cs := genReader(c.Rand("reader", i), i, c.Thorough(), known)
+		stream := "reader"
+		if race {
+			stream = "reader-race" // other histories than the plain flavour runs
+		}
+		cs := genReader(c.Rand(stream, i), i, c.Thorough(), known)
 		c.Begin(cs, caseLimit)
 		execute(c, cs)
 		c.End()
@@ -510,7 +514,11 @@ func Run(c *run.Ctx) {
 		if !c.Mine(i) {
 			continue
 		}
-		cs := genLines(c.Rand("batch", i), i, "batch", c.Thorough(), known)
+		stream := "batch"
+		if race {
+			stream = "batch-race"
+		}
+		cs := genLines(c.Rand(stream, i), i, "batch", c.Thorough(), known)
 		c.Begin(cs, caseLimit)
 		execute(c, cs)
 		c.End()
